@@ -150,6 +150,13 @@ def part_b(tier, seed, rng, wd, v, replay):
                                                     "what": "token grants violate the window bound burst + qps*T / the range 0..ask"})
     out["states"] += tv.distinct
     out["transitions"] += tv.generated
+    # "does this report fit" in machine arithmetic: excess computed without wrap-around verified, the wrapped difference refuted (GcWrap.tla)
+    for variant, expect in (("wide", False), ("narrow", True)):
+        gw = vlib.tlc("limiter", "GcWrap", "GcWrap.cfg", workers=2, timeout=300, consts={"Variant": '"%s"' % variant})
+        if bool(gw.violation) != expect:
+            raise Infra("GcWrap.tla variant %s: unexpected result %s" % (variant, gw.violated()))
+        out["states"] += gw.distinct
+        out["transitions"] += gw.generated
     # sequential in-flight reports through DoAcquire (max-in-flight schema), negative amounts included
     mscs = []
     for i in range(40 if tier == "quick" else 600):
